@@ -430,36 +430,69 @@ for _c in (GetMarkovBlanket(), BNGetMarkovBlanket(), Moralize(), IsDConnected(),
 
 
 class LocalIndependencies(Contract):
-    """local Markov property: v _|_ (non-descendants - parents) | parents, asserted exactly when that set is non-empty"""
+    """local Markov property: for every requested v:  v _|_ (non-descendants - parents) | parents, asserted exactly when that set
+    is non-empty; nothing else is asserted (a single name or a list / tuple of names)"""
     file = "pgmpy/base/DAG.py"
     qual = "DAG.local_independencies"
 
     def variants(self, ex):
+        from .common import atom_list
         yield "variables=single", {"self": new_graph("DAG", "g"), "variables": atom("v", "str")}, {}
+        yield "variables=list", {"self": new_graph("DAG", "g"), "variables": atom_list("vs", "list")}, {}
+        yield "variables=tuple", {"self": new_graph("DAG", "g"), "variables": atom_list("vs", "tuple")}, {}
+
+    @staticmethod
+    def V(args):
+        n = args["variables"]
+        if isinstance(n, Scalar):
+            return z3.Store(empty_set(Atom), n.z, True)
+        return n.mem if n.mem is not None else empty_set(Atom)
 
     def pre(self, ex, st, args):
-        return z3.And(wf_graph(args["self"]), N_(args["self"], args["variables"].z))
+        x = fresh("x", Atom)
+        return z3.And(wf_graph(args["self"]), z3.ForAll([x], z3.Implies(self.V(args)[x], N_(args["self"], x))))
 
     def snapshot(self, ex, st, args):
         return graph_snapshot(args["self"])
 
-    def post(self, ex, st, args, old, result):
-        from vf.pyvc.engine import Obj
+    def spec(self, ex, old, mem, over):
+        """mem holds exactly the local assertion loc(v) of every v in `over` whose independent set is non-empty.
+        loc: Atom -> IndAssertion is a ghost function defined field-wise (conservative: IA.mk of the three sets exists)."""
         from vf.pyvc.lib import IA, ia_fields
+        E, Nn = old["@E"], old["@nodes"]
+        P = ex.lib.theory(ex).path(E)
+        x, v, r = fresh("x", Atom), fresh("v", Atom), fresh("r", IA)
+        nd_minus_pa = lambda v_, y: z3.And(Nn[y], y != v_, z3.Not(P(v_, y)), z3.Not(E[y, v_]))
+        if "@loc" not in old:
+            loc = z3.Function("local_assertion", Atom, IA)
+            old["@loc"] = loc
+            l1, l2, l3 = ia_fields(loc(v))
+            ex.axioms.append(z3.ForAll([v, x], z3.And(l1[x] == (x == v), l2[x] == nd_minus_pa(v, x), l3[x] == E[x, v])))
+        loc = old["@loc"]
+        r1, r2, r3 = ia_fields(r)
+        return {"only-local-assertions": z3.ForAll([r, v], z3.Implies(z3.And(mem[r], r1[v]), z3.And(over[v], r == loc(v), z3.Exists([x], nd_minus_pa(v, x))))),
+                "event1-nonempty": z3.ForAll([r], z3.Implies(mem[r], z3.Exists([v], r1[v]))),
+                "every-nonempty-one-asserted": z3.ForAll([v, x], z3.Implies(z3.And(over[v], nd_minus_pa(v, x)), mem[loc(v)]))}
+
+    def post(self, ex, st, args, old, result):
+        from vf.pyvc.lib import IA
         if not isinstance(result, Obj) or "independencies" not in result.fields:
             return z3.BoolVal(False)
         lst = result.fields["independencies"]
         mem = lst.mem if lst.mem is not None else empty_set(IA)
-        E, Nn, v = old["@E"], old["@nodes"], args["variables"].z
-        P = ex.lib.theory(ex).path(E)
-        x, r = fresh("x", Atom), fresh("r", IA)
-        nd_minus_pa = lambda y: z3.And(Nn[y], y != v, z3.Not(P(v, y)), z3.Not(E[y, v]))
-        r1, r2, r3 = ia_fields(r)
-        is_local = z3.And(z3.ForAll([x], r1[x] == (x == v)), z3.ForAll([x], r2[x] == nd_minus_pa(x)), z3.ForAll([x], r3[x] == E[x, v]))
-        return {"only-the-local-assertion": z3.ForAll([r], z3.Implies(mem[r], is_local)),
-                "asserted-iff-nonempty": (z3.BoolVal(len(lst.items) > 0) if lst.items is not None else z3.Exists([r], mem[r]))
-                                         == z3.Exists([x], nd_minus_pa(x)),
-                "frame": graph_unchanged(args["self"], old)}
+        out = dict(self.spec(ex, old, mem, self.V(args)))
+        out["frame"] = graph_unchanged(args["self"], old)
+        return out
+
+    # loop 0: for variable in (variables if isinstance(...) else [variables])
+    def inv0(self, ex, st, args, old, ghost):
+        from vf.pyvc.lib import IA
+        ind = st.env["independencies"]
+        lst = ind.fields["independencies"]
+        mem = lst.mem if lst.mem is not None else empty_set(IA)
+        return z3.And(*self.spec(ex, old, mem, ghost["done"]).values(), graph_unchanged(args["self"], old))
+
+    invariants = property(lambda self: {0: self.inv0})
 
 
 register(LocalIndependencies())
